@@ -98,6 +98,19 @@ pub fn gen_any(r: &mut Rng, max_depth: usize) -> Val {
     gen_val(r, tt, d)
 }
 /// nesting ladder: `depth` nested containers around a leaf (kind cycles struct/list/map/set)
+/// nesting that goes through map KEYS (kind 0: every level; 1: alternating with lists; 2: alternating with structs and map values)
+pub fn ladder_keys(depth: usize, kind: usize) -> Val {
+    let mut v = Val::I32(7);
+    for i in 0..depth {
+        let through_key = match kind { 0 => true, 1 => i % 2 == 0, _ => i % 3 == 0 };
+        v = if through_key { Val::Map(v.tt(), TT::I8, vec![(v, Val::I8(1))]) }
+            else if kind == 1 { Val::List(v.tt(), vec![v]) }
+            else if i % 3 == 1 { Val::Struct(vec![(1, v)]) }
+            else { Val::Map(TT::I8, v.tt(), vec![(Val::I8(1), v)]) };
+    }
+    v
+}
+
 pub fn ladder(depth: usize, kind: usize) -> Val {
     let mut v = Val::I32(7);
     for i in 0..depth {
